@@ -257,7 +257,7 @@ func (fc *FnCtx) appendStructs(elem types.Type, s, add *Term, st *State) Val {
 	tb := fc.tb
 	n, ok := litInt(tb.App("s_len", "Int", add))
 	if !ok || n > 4 {
-		fc.unsup("append of a non-literal number of struct elements")
+		return fc.appendStructsN(elem, s, add, st)
 	}
 	ln := tb.App("s_len", "Int", s)
 	cp := tb.App("s_cap", "Int", s)
@@ -304,6 +304,93 @@ func (fc *FnCtx) appendStructs(elem types.Type, s, add *Term, st *State) Val {
 			freshM = tb.Store(freshM, dst, at(m, addArr, tb.SIdx(addOff, tb.Int(k))))
 		}
 		fc.heapSet(st, fp.key, tb.Ite(fits, inplace, freshM))
+	}
+	return tb.App("mk_slice", "Slice", tb.Ite(fits, arr, fresh), tb.Ite(fits, off, tb.Int(0)), newLen, tb.Ite(fits, cp, newCap))
+}
+
+// copyStructs: copy(dst, src) for slices whose elements are struct values (flattened sub-objects):
+// every field map is redefined point-wise; for the element objects dst[0..n) the fields come from the
+// corresponding src element in the pre-state (memmove semantics), everything else is unchanged.
+func (fc *FnCtx) copyStructs(elem types.Type, dst, src *Term, st *State) Val {
+	tb := fc.tb
+	dl := tb.App("s_len", "Int", dst)
+	sl := tb.App("s_len", "Int", src)
+	n := tb.Ite(tb.Le(dl, sl), dl, sl)
+	darr, doff := tb.App("s_arr", "Ref", dst), tb.App("s_off", "Int", dst)
+	sarr, soff := tb.App("s_arr", "Ref", src), tb.App("s_off", "Int", src)
+	elemFn := fc.so.ElemFn(elem)
+	elemTag := int64(fc.so.embIDs[elemFn])
+	for _, fp := range fc.flatPaths(elem) {
+		srt := ArraySort("Ref", fc.so.Sort(fp.ftype))
+		m := fc.heapGet(st, fp.key, srt)
+		fr := tb.Fresh("cpy!"+fp.key, srt)
+		x := tb.BoundVar("x", "Ref")
+		e := x
+		conds := []*Term{}
+		for j := len(fp.embs) - 1; j >= 0; j-- {
+			conds = append(conds, tb.Eq(tb.App("emb_tag", "Int", e), tb.Int(int64(fc.so.embIDs[fp.embs[j]]))))
+			e = tb.App("un"+fp.embs[j], "Ref", e)
+		}
+		idx := tb.App("unidx"+elemFn, "Int", e)
+		conds = append(conds, tb.Eq(tb.App("emb_tag", "Int", e), tb.Int(elemTag)), tb.Eq(tb.App("unarr"+elemFn, "Ref", e), darr),
+			tb.Le(doff, idx), tb.Lt(idx, tb.Add(doff, n)))
+		conds = append(conds, tb.Eq(fc.applyEmbs(fc.elemRef(darr, idx, elem), fp.embs), x))
+		srcObj := fc.applyEmbs(fc.elemRef(sarr, tb.SIdx(soff, tb.Sub(idx, doff)), elem), fp.embs)
+		fc.assume(st, tb.Quant(true, []*Term{x}, tb.Eq(tb.Select(fr, x),
+			tb.Ite(tb.And(conds...), tb.Select(m, srcObj), tb.Select(m, x))), tb.Select(fr, x)))
+		fc.heapSet(st, fp.key, fr)
+	}
+	return n
+}
+
+// appendStructsN: append(s, add...) for slices of struct values with a symbolic number of added
+// elements: every field map is redefined point-wise for both outcomes (in place / fresh array).
+func (fc *FnCtx) appendStructsN(elem types.Type, s, add *Term, st *State) Val {
+	tb := fc.tb
+	n := tb.App("s_len", "Int", add)
+	ln := tb.App("s_len", "Int", s)
+	cp := tb.App("s_cap", "Int", s)
+	off := tb.App("s_off", "Int", s)
+	arr := tb.App("s_arr", "Ref", s)
+	newLen := tb.Add(ln, n)
+	fits := tb.And(tb.Le(newLen, cp), tb.Not(tb.Eq(arr, tb.Const("null", "Ref"))))
+	fresh := fc.freshRef(st, "app")
+	newCap := tb.Fresh("appcap", "Int")
+	fc.assume(st, tb.Ge(newCap, newLen))
+	elemFn := fc.so.ElemFn(elem)
+	elemTag := int64(fc.so.embIDs[elemFn])
+	addArr, addOff := tb.App("s_arr", "Ref", add), tb.App("s_off", "Int", add)
+	for _, fp := range fc.flatPaths(elem) {
+		srt := ArraySort("Ref", fc.so.Sort(fp.ftype))
+		m := fc.heapGet(st, fp.key, srt)
+		path := func(a, i *Term) *Term { return fc.applyEmbs(fc.elemRef(a, i, elem), fp.embs) }
+		x := tb.BoundVar("x", "Ref")
+		e := x
+		var tags []*Term
+		for j := len(fp.embs) - 1; j >= 0; j-- {
+			tags = append(tags, tb.Eq(tb.App("emb_tag", "Int", e), tb.Int(int64(fc.so.embIDs[fp.embs[j]]))))
+			e = tb.App("un"+fp.embs[j], "Ref", e)
+		}
+		idx := tb.App("unidx"+elemFn, "Int", e)
+		tags = append(tags, tb.Eq(tb.App("emb_tag", "Int", e), tb.Int(elemTag)))
+		isElemOf := func(a *Term) *Term {
+			c := append([]*Term{}, tags...)
+			c = append(c, tb.Eq(tb.App("unarr"+elemFn, "Ref", e), a), tb.Eq(path(a, idx), x))
+			return tb.And(c...)
+		}
+		// in place: elements [off+ln, off+ln+n) of arr come from add
+		base := tb.Add(off, ln)
+		frIn := tb.Fresh("appi!"+fp.key, srt)
+		fc.assume(st, tb.Quant(true, []*Term{x}, tb.Eq(tb.Select(frIn, x),
+			tb.Ite(tb.And(isElemOf(arr), tb.Le(base, idx), tb.Lt(idx, tb.Add(base, n))),
+				tb.Select(m, path(addArr, tb.SIdx(addOff, tb.Sub(idx, base)))), tb.Select(m, x))), tb.Select(frIn, x)))
+		// fresh array: prefix from s, suffix from add
+		frF := tb.Fresh("appf!"+fp.key, srt)
+		fc.assume(st, tb.Quant(true, []*Term{x}, tb.Eq(tb.Select(frF, x),
+			tb.Ite(tb.And(isElemOf(fresh), tb.Le(tb.Int(0), idx), tb.Lt(idx, ln)), tb.Select(m, path(arr, tb.SIdx(off, idx))),
+				tb.Ite(tb.And(isElemOf(fresh), tb.Le(ln, idx), tb.Lt(idx, newLen)), tb.Select(m, path(addArr, tb.SIdx(addOff, tb.Sub(idx, ln)))),
+					tb.Select(m, x)))), tb.Select(frF, x)))
+		fc.heapSet(st, fp.key, tb.Ite(fits, frIn, frF))
 	}
 	return tb.App("mk_slice", "Slice", tb.Ite(fits, arr, fresh), tb.Ite(fits, off, tb.Int(0)), newLen, tb.Ite(fits, cp, newCap))
 }
